@@ -12,7 +12,7 @@ EXPLANATION = (
     "zeroed 16-byte window loaded from buffer[offset/8..(offset+bits+7)/8], shifts by offset % 8, advances offset by bits "
     "and refuses when fewer bits are available; that append keeps the unconsumed tail and the bit phase; that add_bits "
     "has the documented fast path, bit loop and phase update; and that zero-width records are synthesised from the "
-    "record's own minimum with stream i feeding queue i. Not decided: numeric correctness of add_bits/extract for every "
+    "record's own minimum with stream i feeding queue i. append() empties its scratch vector on every path. Not decided: numeric correctness of add_bits/extract for every "
     "bit phase and packet cut (needs execution or a solver).")
 
 
